@@ -4,6 +4,7 @@ import (
 	"context"
 	"fmt"
 	"io"
+	"strings"
 
 	"google.golang.org/grpc/stats"
 
@@ -114,6 +115,14 @@ func c13(tier string) []*explore.Scenario {
 	for _, si := range []int{0, 3, 5, 8, 10, 11} {
 		out = append(out, c13Seq("us", true, si, 1, 2, 1), c13Seq("us", true, si, 0, 2, 1))
 	}
+	// longer sequences over a focused alphabet (messages, undecodable messages, header-only, OK trailer)
+	for _, mix := range []string{"us", "ss"} {
+		for _, si := range c13FocusShapes {
+			for target := 0; target < 2; target++ {
+				out = append(out, c13SeqF(mix, false, si, target, maxLen+1, 0))
+			}
+		}
+	}
 	// back-to-back deliveries
 	for _, mix := range []string{"uu", "us"} {
 		for _, st := range []bool{false, true} {
@@ -130,6 +139,19 @@ func c13(tier string) []*explore.Scenario {
 
 func c13Seq(mix string, withStats bool, first, firstTarget, maxLen, bound int) *explore.Scenario {
 	return c13SeqT(mix, withStats, first, firstTarget, maxLen, bound, false)
+}
+
+// indices into c13Shapes for the focused longer sequences
+var c13FocusShapes = []int{0, 1, 3, 13} // body, header-only, trailer-ok, garbage-body
+
+var c13Focus = false
+
+func c13SeqF(mix string, withStats bool, first, firstTarget, maxLen, bound int) *explore.Scenario {
+	sc := c13SeqT(mix, withStats, first, firstTarget, maxLen, bound, false)
+	sc.Name = strings.Replace(sc.Name, "C13/seq/", "C13/focus/", 1)
+	inner := sc.Run
+	sc.Run = func() { c13Focus = true; defer func() { c13Focus = false }(); inner() }
+	return sc
 }
 
 // burst: envelopes are sent back to back, racing with the calls' own processing and teardown.
@@ -199,7 +221,14 @@ func c13SeqT(mix string, withStats bool, first, firstTarget, maxLen, bound int, 
 			okEnd := []bool{false, false, false}
 			for pos := 0; pos < maxLen; pos++ {
 				si, tg := first, firstTarget
-				if pos > 0 {
+				if pos > 0 && c13Focus {
+					c := vsched.Choose(len(c13FocusShapes) + 1)
+					if c == len(c13FocusShapes) {
+						break
+					}
+					si = c13FocusShapes[c]
+					tg = vsched.Choose(2)
+				} else if pos > 0 {
 					c := vsched.Choose(len(c13Shapes) + 1)
 					if c == len(c13Shapes) {
 						break
